@@ -11,7 +11,7 @@ import tempfile
 from typing import Any, Iterable
 
 from .. import build, common, gen, impl
-from ..build import Env, enc_val
+from ..build import Env, enc_val, py_val
 from ..engine import Prop, canonical_hash
 
 common.use_repo()
@@ -19,7 +19,7 @@ import hypergraph.cache as hcache  # noqa: E402
 from hypergraph.cache import DiskCache, InMemoryCache  # noqa: E402
 
 TAMPERS = ["payload_flip", "payload_trunc", "payload_type", "payload_del", "hmac_del", "hmac_garbage", "hmac_type", "hmac_nonascii",
-           "payload_pickled", "hmac_pickled"]
+           "payload_pickled", "hmac_pickled", "payload_half", "payload_append", "payload_midflip"]
 
 FIRED: list[str] = []
 
@@ -40,7 +40,9 @@ class Tracer:
 
 
 # for the Lean disk model a row rewritten in the store's own pickle mode is a payload / signature of the wrong type
-MODEL_TAMPER = {"payload_pickled": "payload_type", "hmac_pickled": "hmac_type"}
+MODEL_TAMPER = {"payload_pickled": "payload_type", "hmac_pickled": "hmac_type",
+                # partial damage of the stored bytes (half written, garbage appended, one byte flipped): a changed payload under an intact signature
+                "payload_half": "payload_flip", "payload_append": "payload_flip", "payload_midflip": "payload_flip"}
 
 
 def _model_steps(steps: list[dict]) -> list[dict]:
@@ -112,7 +114,7 @@ class C09(Prop):
     def cases(self, rng: random.Random, tier: str) -> Iterable[dict]:
         # every dedicated family is visited at least twice per run, whatever the seed; the rest is drawn at random
         closure_variant = 0
-        forced = [0.04, 0.11, 0.16, 0.21, 0.245, 0.28, 0.32, 0.35, 0.35, 0.35, 0.38, 0.41, 0.45, 0.48] * 2
+        forced = [0.04, 0.11, 0.16, 0.16, 0.21, 0.245, 0.28, 0.32, 0.35, 0.35, 0.35, 0.38, 0.41, 0.45, 0.48, 0.7, 0.7, 0.7] * 2
         while True:
             r = forced.pop() if forced else rng.random()
             if r < 0.08:
@@ -259,7 +261,16 @@ class C09(Prop):
                     pr[0]["nodes"][0]["targets"] = ["ta", "tb"]
                 twin_variant = getattr(self, "_twin_variant", 0) + 1
                 self._twin_variant = twin_variant
-                if twin_variant % 2 == 0:
+                if twin_variant % 3 == 2:
+                    # ... or two if/else gates over ONE predicate with the branches swapped: the order of the targets IS the polarity
+                    ie = {"name": "na", "kind": "ifelse", "params": [["x", None]], "targets": ["ta", "tb"], "body": {"b": "lt", "k": 2}, "cache": True,
+                          "defaultOpen": rng.random() < 0.5}
+                    end_variant = rng.random() < 0.3
+                    ie2 = dict(ie, targets=(["__END__", "ta"] if end_variant else ["tb", "ta"]))
+                    if end_variant:
+                        ie = dict(ie, targets=["ta", "__END__"])
+                    progs = [[{"name": "g0", "nodes": [ie, ta, tb], "bound": []}], [{"name": "g0", "nodes": [ie2, ta, tb], "bound": []}]]
+                elif twin_variant % 3 == 0:
                     # ... or differ ONLY by multi_target (same function, same targets, no fallback): the multi-target gate must not be
                     # served the single decision of the other one
                     g1 = dict(gate, name="na", fallback=None)
@@ -320,11 +331,17 @@ class C09(Prop):
                     k0 = rng.choice(keys)
                     steps += [{"t": "set", "k": k0, "v": rng.randint(0, 9)}, {"t": "get", "k": k0},
                               {"t": rng.choice(["payload_flip", "payload_trunc", "payload_type"]), "k": k0}, {"t": "get", "k": k0}]
+                if rng.random() < 0.4:
+                    # a LARGE entry, partly damaged (half written / garbage appended / one byte flipped in the middle), then read
+                    k0 = rng.choice(keys)
+                    steps += [{"t": "set", "k": k0, "v": {"l": [rng.randint(0, 9)] * rng.choice([1500, 9000])}},
+                              {"t": rng.choice(["payload_half", "payload_append", "payload_midflip"]), "k": k0}, {"t": "get", "k": k0}]
                 for _ in range(rng.randint(3, 10)):
                     k = rng.choice(keys)
                     t = rng.random()
                     if t < 0.3:
-                        steps.append({"t": "set", "k": k, "v": rng.randint(0, 9)})
+                        # (sometimes a LARGE value — several KiB pickled: stores treat big payloads differently: files, compression)
+                        steps.append({"t": "set", "k": k, "v": rng.randint(0, 9) if rng.random() < 0.7 else {"l": [rng.randint(0, 9)] * rng.choice([1500, 9000])}})
                     elif t < 0.4:
                         steps.append({"t": "crashSet", "k": k, "v": rng.randint(10, 19)})
                     elif t < 0.65:
@@ -532,9 +549,9 @@ class C09(Prop):
             for s in case["steps"]:
                 k, t = s["k"], s["t"]
                 if t == "set":
-                    dc.set(k, s["v"])
+                    dc.set(k, py_val(s["v"]))
                 elif t == "crashSet":
-                    raw.set(k, pickle.dumps(s["v"]))          # the first of set()'s two writes only
+                    raw.set(k, pickle.dumps(py_val(s["v"])))          # the first of set()'s two writes only
                 elif t == "get":
                     before = len(spy.loads_calls) + len(FIRED)
                     try:
@@ -550,6 +567,18 @@ class C09(Prop):
                     else:
                         raw.set(k, bytes([9, 9, 9, 7]))
                         raw.set(k + ":hmac", "garbage")
+                elif t in ("payload_half", "payload_append", "payload_midflip"):
+                    cur = raw.get(k, default=None)
+                    if isinstance(cur, bytes) and len(cur) >= 2:
+                        if t == "payload_half":
+                            raw.set(k, cur[: len(cur) // 2])
+                        elif t == "payload_append":
+                            raw.set(k, cur + b"\x00garbage")
+                        else:
+                            mid = len(cur) // 2
+                            raw.set(k, cur[:mid] + bytes([cur[mid] ^ 0x55]) + cur[mid + 1:])
+                    else:
+                        raw.set(k, bytes([9, 9, 9, 7]))
                 elif t == "payload_pickled":
                     raw.set(k, Tracer("payload"))       # the row rewritten in the store's own pickle mode: fetching it would unpickle it
                 elif t == "hmac_pickled":
